@@ -40,10 +40,10 @@ class C10(PropertyCheck):
         "(kind, mask, kernel shape, geometry)"
     )
     exhaustive_note = {
-        "quick": "edge/border index lists: every mask with >=1 unmasked pixel for every shape with H*W <= 12 "
+        "quick": "edge/border index lists: every mask (incl. the fully masked one) for every shape with H*W <= 12 "
                  "(util functions); all public views (indexes, masks, grids): every such mask with H*W <= 9; "
                  "blurring masks: every mask with H*W <= 9 x kernels {1,3}x{1,3}",
-        "thorough": "edge/border index lists: every mask with >=1 unmasked pixel for every shape with H*W <= 15; "
+        "thorough": "edge/border index lists: every mask (incl. the fully masked one) for every shape with H*W <= 15; "
                     "all public views: every such mask with H*W <= 12; blurring masks: every mask with "
                     "H*W <= 12 x kernels {1,3,5}x{1,3,5}",
     }
@@ -86,6 +86,14 @@ class C10(PropertyCheck):
     ]
 
     # ------------------------------------------------------------------ generation
+    MASK_FORMS = ["bool_nd", "bool_nd", "bool_list", "int_list", "int_nd", "invert"]
+
+    def _forms(self, rng):
+        """how the (same) inputs are handed to the public API: container / dtype / constructor variants"""
+        return {"mask_form": rng.choice(self.MASK_FORMS),
+                "scales_form": rng.choice(["tuple", "tuple", "scalar", "int", "list"]),
+                "kshape_form": rng.choice(["tuple", "list", "np_int"])}
+
     def _geom(self, rng, exact=False):
         sc = POW2_SCALES if exact else ALL_SCALES
         return ([q(rng.choice(sc)), q(rng.choice(sc))],
@@ -98,24 +106,39 @@ class C10(PropertyCheck):
         blur_cells = 9 if quick else 12
         # 1. edge/border index lists through the util functions, exhaustive
         for (h, w) in gen.shapes_upto(util_cells):
-            for m in gen.all_masks(h, w):
-                yield {"tag": "util_exhaustive", "kind": "util", "mask": mask_json(m)}
+            for m in gen.all_masks(h, w, min_unmasked=0):
+                yield {"tag": "util_exhaustive", "kind": "util", "mask": mask_json(m),
+                       "mask_form": "int_nd" if (h + w) % 5 == 0 else "bool_nd"}
         # 2. every public view, exhaustive masks, anisotropic geometry off the origin
         for (h, w) in gen.shapes_upto(view_cells):
-            for m in gen.all_masks(h, w):
+            for m in gen.all_masks(h, w, min_unmasked=0):
                 sc, og = self._geom(rng)
                 yield {"tag": "views_exhaustive", "kind": "sets", "mask": mask_json(m), "scales": sc,
-                       "origin": og}
+                       "origin": og, **self._forms(rng)}
         # 3. blurring masks: exhaustive masks × small kernels (most hit the exception branch, many do not)
         ks = (1, 3) if quick else (1, 3, 5)
         for (h, w) in gen.shapes_upto(blur_cells):
-            for m in gen.all_masks(h, w):
+            for m in gen.all_masks(h, w, min_unmasked=0):
                 for kh in ks:
                     for kw in ks:
                         if kh > 2 * h or kw > 2 * w:
                             continue
                         yield {"tag": "blur_exhaustive", "kind": "blurring", "mask": mask_json(m),
                                "kh": kh, "kw": kw, "grid": False}
+        # 3b. degenerate masks: no unmasked pixel at all (a result is required: nothing to blur, empty sets),
+        #     exactly one, everything unmasked — with kernels up to (7,7), larger than the frame included
+        for _ in range(40 if quick else 300):
+            h, w = rng.randint(1, 9), rng.randint(1, 9)
+            which = rng.choice(["none", "none", "one", "all"])
+            m = gen.full(h, w, which != "all")
+            if which == "one":
+                m[rng.randrange(h)][rng.randrange(w)] = False
+            sc, og = self._geom(rng)
+            yield {"tag": f"degenerate_{which}_sets", "kind": "sets", "mask": mask_json(m), "scales": sc,
+                   "origin": og, **self._forms(rng)}
+            kh, kw = rng.choice(ODD), rng.choice(ODD)
+            yield {"tag": f"degenerate_{which}_blur", "kind": "blurring", "mask": mask_json(m), "kh": kh,
+                   "kw": kw, "grid": True, "scales": sc, "origin": og, **self._forms(rng)}
         # 4. structured random larger masks: every view + blurring with non-square kernels
         n = 150 if quick else 1500
         for _ in range(n):
@@ -123,7 +146,7 @@ class C10(PropertyCheck):
             m, kind = gen.random_mask(rng, h, w)
             sc, og = self._geom(rng)
             yield {"tag": f"views_random_{kind}", "kind": "sets", "mask": mask_json(m), "scales": sc,
-                   "origin": og}
+                   "origin": og, **self._forms(rng)}
         for _ in range(n):
             kh, kw = rng.choice(ODD), rng.choice(ODD)
             h, w = rng.randint(max(3, kh), 12), rng.randint(max(3, kw), 12)
@@ -137,7 +160,7 @@ class C10(PropertyCheck):
             m = self._mask_with_margins(rng, h, w, margin_y, margin_x)
             sc, og = self._geom(rng)
             yield {"tag": f"blur_random_{kh}x{kw}", "kind": "blurring", "mask": mask_json(m), "kh": kh,
-                   "kw": kw, "grid": True, "scales": sc, "origin": og}
+                   "kw": kw, "grid": True, "scales": sc, "origin": og, **self._forms(rng)}
         # 5. even kernels are rejected by the public entry point
         for _ in range(10 if quick else 60):
             h, w = rng.randint(5, 9), rng.randint(5, 9)
@@ -180,13 +203,37 @@ class C10(PropertyCheck):
         m = mask_from_json(case["mask"])
         kind = case["kind"]
         if kind == "util":
+            if case.get("mask_form") == "int_nd":
+                m = m.astype(np.int64)
             es = mask_2d_util.edge_1d_indexes_from(mask_2d=m)
             bs = mask_2d_util.border_slim_indexes_from(mask_2d=m)
             return {"edge_slim": [int(v) for v in es], "border_slim": [int(v) for v in bs],
                     "total_edge": int(mask_2d_util.total_edge_pixels_from(mask_2d=m))}
         sc = tuple(float(Fraction(s)) for s in case.get("scales", ["1", "1"]))
         og = tuple(float(Fraction(s)) for s in case.get("origin", ["0", "0"]))
-        mask = aa.Mask2D(mask=m, pixel_scales=sc, origin=og)
+        sform = case.get("scales_form", "tuple")
+        if sform == "scalar" and sc[0] == sc[1]:
+            sc_in = sc[0]
+        elif sform == "int" and all(float(v).is_integer() for v in sc):
+            sc_in = (int(sc[0]), int(sc[1]))   # a bare int scalar is outside the documented PixelScales type
+        elif sform == "list":
+            sc_in = [sc[0], sc[1]]
+        else:
+            sc_in = sc
+        og_in = tuple(int(v) for v in og) if (sform == "int" and all(float(v).is_integer() for v in og)) else og
+        mform = case.get("mask_form", "bool_nd")
+        kw_mask = {}
+        if mform == "bool_list":
+            m_in = [[bool(b) for b in r] for r in m]
+        elif mform == "int_list":
+            m_in = [[int(b) for b in r] for r in m]
+        elif mform == "int_nd":
+            m_in = m.astype(np.int64)
+        elif mform == "invert":
+            m_in, kw_mask = np.invert(m), {"invert": True}
+        else:
+            m_in = m
+        mask = aa.Mask2D(mask=m_in, pixel_scales=sc_in, origin=og_in, **kw_mask)
         if kind == "sets":
             di, dm, dg = mask.derive_indexes, mask.derive_mask, mask.derive_grid
             return {
@@ -200,6 +247,10 @@ class C10(PropertyCheck):
                 "border_grid": _grid(dg.border),
             }
         kshape = (case["kh"], case["kw"])
+        if case.get("kshape_form") == "list":
+            kshape = [case["kh"], case["kw"]]
+        elif case.get("kshape_form") == "np_int":
+            kshape = (np.int64(case["kh"]), np.int64(case["kw"]))
         try:
             bm = mask.derive_mask.blurring_from(kernel_shape_native=kshape)
         except exc.MaskException as e:
